@@ -33,7 +33,16 @@ func C04(c *core.Ctx) {
 	ms = append(ms, addPropsMembers(c.Tier, cfg)...)
 	ms = append(ms, allOfMembers(cfg)...)
 	for _, mb := range ms {
-		runMember(c, mb, rules, 64, checkRoot)
+		runMember(c, mb, rules, 64, func(w *fam.World, fm *fam.FileModel) []fam.Issue {
+			var keep []fam.Issue
+			for _, is := range checkRoot(w, fm) {
+				if is.Rule == "A-NOEXTRA" && !strings.Contains(is.Construct, "presence") {
+					continue // value-level branches belong to the keyword's own property
+				}
+				keep = append(keep, is)
+			}
+			return keep
+		})
 	}
 	ruleMultiSel(c, ruleSet("A-REQ", "A-NOEXTRA"), 1, "differing only in required")
 	c.Floor("families", c.Counts["members"], 100, "family members")
